@@ -131,6 +131,7 @@ func intLitStr(s string) string {
 
 type Theory struct {
 	cps      []cpEntry
+	cpUsed   map[string]bool
 	globDone map[string]bool
 	sorts     []string          // datatype declarations in order
 	sortSeen  map[string]bool   // by SMT name
@@ -160,7 +161,7 @@ type structField struct {
 }
 
 func newTheory(ex *ExternSpecs) *Theory {
-	return &Theory{sortSeen: map[string]bool{}, structOf: map[Sort]*structInfo{}, declSeen: map[string]bool{}, globDone: map[string]bool{},
+	return &Theory{sortSeen: map[string]bool{}, structOf: map[Sort]*structInfo{}, declSeen: map[string]bool{}, globDone: map[string]bool{}, cpUsed: map[string]bool{},
 		strLits: map[string]string{}, tags: map[string]int{}, externs: ex, arraySeen: map[string]bool{}}
 }
 
@@ -206,6 +207,7 @@ func (th *Theory) declConst(name string, s Sort) string {
 		for _, e := range th.cps {
 			if strings.HasPrefix(name, e.prefix) && len(name) > len(e.prefix) && strings.ContainsRune("@!$", rune(name[len(e.prefix)])) {
 				th.declConst(e.glob, SRef)
+				th.cpUsed[e.note] = true
 				th.axioms = append(th.axioms, fmt.Sprintf("(= (select %s %s) %s)", name, e.glob, e.value))
 			}
 		}
@@ -213,7 +215,7 @@ func (th *Theory) declConst(name string, s Sort) string {
 	return name
 }
 
-type cpEntry struct{ prefix, glob, value string }
+type cpEntry struct{ prefix, glob, value, note string }
 
 // installConstPointees: see World.ConstPointees.
 func (th *Theory) installConstPointees(w *World) {
@@ -222,6 +224,7 @@ func (th *Theory) installConstPointees(w *World) {
 			prefix: sanitize(fieldHeap(th.sortOf(c.Struct), c.Field)),
 			glob:   "glob$" + sanitize(c.Global.Pkg().Path()+"."+c.Global.Name()),
 			value:  c.Value,
+			note:   fmt.Sprintf("constant global object: %s.%s.%s == %s in every state (declared at %s with a literal initialiser; no statement of the repository assigns the variable, that field of that type, or a whole value of that type through a pointer: checked syntactically at load)", c.Global.Pkg().Name(), c.Global.Name(), c.Field, c.Value, c.Pos),
 		})
 	}
 }
